@@ -19,7 +19,13 @@ def r1(ctx):
     P = ctx.P
     ctx.check('MAX_JSON_MESSAGE_SIZE', P.const_val(SK + '::MAX_JSON_MESSAGE_SIZE') == str(1 << 20), 'limit is %s' % P.const_val(SK + '::MAX_JSON_MESSAGE_SIZE'), sample=P.const_val(SK + '::MAX_JSON_MESSAGE_SIZE'))
     b = P.body(SK + '::read_json::{closure#0}')
-    within = fact_cmp('Le', r'^msg_size$|ReadU64', r'^MAX_JSON_MESSAGE_SIZE=1048576$', names=True)
+    within = fact_cmp('Le', r'ReadU64', r'^MAX_JSON_MESSAGE_SIZE=1048576$')
+    # the payload must be read completely: the only read besides the length prefix is one read_exact (a single read()/read_buf() returns after the first chunk)
+    partial = [s for s in b.calls(r'AsyncReadExt::(read|read_to_end|read_buf|read_to_string)$')]
+    exact = b.calls(r'AsyncReadExt::read_exact$')
+    ctx.check('read_json|payload-read-completely', not partial and len(exact) == 1,
+              'the payload is read with %s: a message that arrives in several chunks is cut short' % ([short_name(b.callee(s)['def']) for s in partial] or 'no single read_exact'),
+              (partial or exact or [None])[0].where() if (partial or exact) else None, sample=[len(partial), len(exact)])
     rz = one(b.calls(r'Vec::resize$'), 'buffer.resize')
     ctx.guard(b, rz, 'size-checked', within, key='read_json|resize|size-checked')
     a = [N(x) for x in b.call_args(rz)]
